@@ -311,6 +311,7 @@ def classify(site):
 def report_sites(rep, rule, col, table, scope_pred=lambda fn, site: True, prop_note=''):
     """one obligation per site; undischarged sites not in the manual table are violations"""
     classes = {'auto': 0, 'auto-with-invariant': 0, 'unreachable': 0, 'D3': 0, 'D4': 0, 'U': 0}
+    debug_asserts = []
     for (fname, b), site in sorted(col.sites.items(), key=lambda x: (x[0][0], x[0][1])):
         fn = site['fn']
         if not scope_pred(fn, site):
@@ -331,6 +332,12 @@ def report_sites(rep, rule, col, table, scope_pred=lambda fn, site: True, prop_n
             how = 'D3' if ent.get('requires_flags') or ent.get('anchors') else 'D4'
         else:
             how = 'U'
+        if how == 'U' and site['kind'] == 'call:panic' and (site['span'].get('expn') or '').startswith('debug_assert'):
+            # a `debug_assert!` the analysis cannot prove: the developer's own run-time check, absent from release
+            # builds (unlike an overflow check, nothing misbehaves when it is compiled out). Listed, not a violation.
+            debug_asserts.append('%s  %s' % (fn.loc(site['span']), snip[:90]))
+            classes['debug-assert-not-proved'] = classes.get('debug-assert-not-proved', 0) + 1
+            continue
         classes[how] += 1
         ok = how != 'U'
         rep.oblige(rule, '%s|bb%d|%s' % (fname, b, site['kind']), ok=ok, nontrivial=(how != 'unreachable'),
@@ -341,4 +348,7 @@ def report_sites(rep, rule, col, table, scope_pred=lambda fn, site: True, prop_n
                           'possible panic (%s) in %s %s: %s' % (site['kind'], fname, prop_note, '; '.join(site['why'][:2])),
                           ['expression: ' + snip[:120], 'contexts analysed: %d, verdicts: %s' % (
                               len(site['verdicts']), sorted(set(site['verdicts'])))], control=is_control)
+    if debug_asserts:
+        rep.notes.append('%s: debug_assert! sites that the analysis does not prove (debug builds only; not counted as '
+                         'violations): %s' % (rule, '; '.join(sorted(set(debug_asserts))[:8])))
     return classes
